@@ -34,9 +34,15 @@ def dataframe_to_symbols(table: 'pandas.DataFrame') -> List[Symbol]:  # noqa: F8
 
     def convert_to_int_or_none(field: Any) -> Optional[int]:
         """Convert NaNs to `None`; `int` otherwise."""
-        if np.isnan(field):
+        if field is None or np.isnan(field):
             return None
         return int(field)
+
+    def convert_to_str_or_none(field: Any) -> Optional[str]:
+        """Convert missing values (`None`, NaNs) to `None`; leave `str` unchanged."""
+        if isinstance(field, str):
+            return field
+        return None
 
     symbols = []
 
@@ -46,6 +52,11 @@ def dataframe_to_symbols(table: 'pandas.DataFrame') -> List[Symbol]:  # noqa: F8
         entry['type'] = Type(entry['type'])  # Convert to `enum`erated variable type
         entry['lags'] = convert_to_int_or_none(entry['lags'])
         entry['leads'] = convert_to_int_or_none(entry['leads'])
+
+        # Optional text fields: `pandas` may have replaced `None` with NaN
+        entry['name'] = convert_to_str_or_none(entry['name'])
+        entry['equation'] = convert_to_str_or_none(entry['equation'])
+        entry['code'] = convert_to_str_or_none(entry['code'])
 
         symbols.append(Symbol(**entry))
 
